@@ -159,6 +159,8 @@ PROPERTIES["C14"] = {
     ] + [MH(n, inputs="package with 2-entry signature header, 1-entry main header, 3 payload bytes, contents symbolic; sink script symbolic", timeout=900,
             bounds="Package::write / PackageMetadata::write from MIR into a scripted sink (chunk size in the name; k0 = whole buffers), failure or Interrupted at any call",
             covers_unsat_ok=["write fails"]) for n in ("c14_wpkg_k0", "c14_wpkg_k1", "c14_wpkg_k2", "c14_wpkg_k5", "c14_wpkg_intr_k0", "c14_wpkg_intr_k1", "c14_wmeta_k1", "c14_wmeta_k0")]
+    + [MH("c14_wzero_k%d" % k, inputs="package as in c14_wpkg_*; the sink is full (write() returns Ok(0)) from a symbolic call number on", timeout=900, covers_unsat_ok=["write fails", "write succeeds"],
+          bounds="Package::write into a sink accepting %s per call that fills up: an error, and what was emitted is a prefix" % ("everything" if k == 0 else "%d byte(s)" % k)) for k in (0, 1, 5)]
     + [MH("c14_resid_%d" % r, inputs="package whose signature header store has %d symbolic bytes (%d padding bytes); sink script symbolic" % (r, (-r) % 8), timeout=600, covers_unsat_ok=["write fails"],
           tier=("quick" if r < 8 else "thorough"), bounds="Package::write into a sink accepting 1 byte per call, failure at any call: every signature store size mod 8") for r in range(0, 16)]
     + [MH("c14_meta_%d" % t, tier=("quick" if t <= 40 else "thorough"), timeout=(1800 if t <= 40 else 7200),
@@ -171,6 +173,17 @@ PROPERTIES["C14"] = {
 }
 
 # ------------------------------------------------------------------------------------------ C01
+_HDRT = [("2bin_2", "two BIN entries (tags, offsets, counts symbolic) + 2 store bytes"), ("2i32str_6", "an INT32 and a STRING entry (count 1 each) + 6 store bytes"),
+         ("i32x2", "one INT32 entry of 2 items + 8 store bytes"), ("i16x2", "one INT16 entry of 2 items + 4 store bytes"), ("i64x2", "one INT64 entry of 2 items + 16 store bytes"),
+         ("strs2", "one STRING_ARRAY entry of 2 items + 4 store bytes")]
+
+
+def _hdrt(prefix, bounds):
+    return [MH("%s_hdrt_%s" % (prefix, n), inputs="typed header shape: " + d + "; intro counts and entry types fixed, everything else symbolic", bounds=bounds, timeout=900,
+               covers_unsat_ok=["accepted with an entry", "header rejected", "header accepted"] + ["decoded a %s entry" % t for t in ("Null", "Char", "Int8", "Int16", "Int32", "Int64", "StringTag", "Bin", "StringArray", "I18NString")])
+            for n, d in _HDRT]
+
+
 PROPERTIES["C01"] = {
     "harnesses": [
         H("c01_lead", sub="codec", inputs="all 96 lead bytes", bounds="none (complete over the lead)", timeout=600),
@@ -185,6 +198,7 @@ PROPERTIES["C01"] = {
           inputs="16 intro bytes (magic/version valid, counts symbolic) + %d index/store bytes + %d trailing bytes, all symbolic" % s,
           bounds="Level H: Header::parse then Header::write, at most %d entries of ANY type/tag/offset/count, store up to %d bytes" % (s[0] // 16, s[0]),
           covers_unsat_ok=["accepted with an entry", "header rejected"]) for s in HDR_SHAPES]
+    + _hdrt("c01", "Level H on typed shapes: two entries per header, numeric and string entries with two items")
     + [MH("c01_hdr_anyintro_%d_0" % r, inputs="all 16 intro bytes + %d further bytes symbolic" % r, bounds="Level H with arbitrary intro", timeout=900,
           covers_unsat_ok=["accepted with an entry", "header rejected"]) for r in (0, 16, 17)]
     + [MH("c01_meta_%d" % t, tier=("quick" if t <= 40 else "thorough"), timeout=(1800 if t <= 40 else 7200),
@@ -215,6 +229,7 @@ PROPERTIES["C04"] = {
     + [MH("c04_hdr_%d_%d" % s, tier=("quick" if s[0] <= 20 else "thorough"), timeout=(900 if s[0] <= 20 else 3600),
           inputs="16 intro bytes (magic/version valid, counts symbolic) + %d index/store bytes + %d trailing bytes, all symbolic" % s,
           bounds="Header::parse, at most %d entries, store up to %d bytes" % (s[0] // 16, s[0]), covers_unsat_ok=["accepted with an entry", "header rejected"]) for s in HDR_SHAPES]
+    + _hdrt("c04", "Header::parse on typed shapes: no panic, no out-of-proportion allocation")
     + [MH("c04_hdr_anyintro_%d_0" % r, inputs="all 16 intro bytes + %d further bytes symbolic" % r, bounds="Header::parse with arbitrary intro", timeout=900,
           covers_unsat_ok=["accepted with an entry", "header rejected"]) for r in (0, 16, 17)]
     + [MH("c04_meta_%d" % t, tier=("quick" if t <= 40 else "thorough"), timeout=(1800 if t <= 40 else 7200),
@@ -316,6 +331,7 @@ PROPERTIES["C05"] = {
           bounds="get_file_entries: each entry carries its own mtime/size/flags/owner/link/path") for n in (1, 2) for l in ("u32", "long")]
     + [MH("c05_paths_missing_" + m, inputs="one member of the BASENAMES/DIRINDEXES/DIRNAMES triple absent", bounds="missing member -> error", timeout=300,
           covers_unsat_ok=["paths returned", "error returned"]) for m in ("BASENAMES", "DIRINDEXES", "DIRNAMES")]
+    + _hdrt("c05", "decoded data and every typed getter vs the independent decoder on typed shapes (two items per entry: first-item getters return the FIRST item)")
     + [MH("c05_hdr_bin_18_0", inputs="as c05_hdr_18_0, store bytes 0..255", bounds="non-UTF-8 data for the non-string types", timeout=900,
           covers_unsat_ok=["accepted with an entry", "header rejected"] + ["decoded a %s entry" % t for t in ("Null", "Char", "Int8", "Int16", "Int32", "Int64", "StringTag", "Bin", "StringArray", "I18NString")])],
     "bounds": "headers with one entry of any type, any offset/count, store up to 8 bytes: decoded data vs an independent decoder, every typed getter of Header (right type -> that value, wrong type -> error, absent tag -> TagNotFound)",
@@ -335,6 +351,8 @@ PROPERTIES["C02"] = {
            covers_unsat_ok=["verifier consulted twice"]),
         MH("c02_verify_digest_short", timeout=900, inputs="2 shapes with a recorded SHA256 header digest of 63 symbolic characters", bounds="a digest of the wrong length never lets verify_signature succeed",
            covers_unsat_ok=["verifier consulted twice", "verification succeeds", "verification fails"]),
+        MH("c02_verify_digest_both", timeout=900, inputs="2 shapes with both a SHA1 and a SHA256 header digest recorded, each symbolic", bounds="both recorded header digests must match for verify_signature to succeed",
+           covers_unsat_ok=["verifier consulted twice"]),
         MH("c02_verify_digest_empty", timeout=900, inputs="1 shape with an empty recorded SHA256 header digest", bounds="a digest of the wrong length never lets verify_signature succeed",
            covers_unsat_ok=["verifier consulted twice", "verification succeeds", "verification fails"]),
     ],
